@@ -7,7 +7,8 @@ d=$1; rx=${2:-Demo}; extra=$3
 cd $d || exit 2
 git apply --check -R OUT/patch.diff 2>/dev/null || { echo "patch not applied in worktree?"; }
 go build ./... || { echo "BUILD FAILS"; exit 1; }
-demo() { go test -vet=off -count=1 $extra -run "$rx" ./tests/ 2>&1 | tail -30; }
+pkg=${DEMO_PKG:-./tests/}
+demo() { go test -vet=off -count=1 $extra -run "$rx" $pkg 2>&1 | tail -30; }
 echo "== demo with change"; demo > /tmp/vm.$$.with; grep -a -E "^(ok|FAIL|---)" /tmp/vm.$$.with | head -8
 git apply -R OUT/patch.diff || exit 2
 echo "== demo without change"; demo > /tmp/vm.$$.without; grep -a -E "^(ok|FAIL|---)" /tmp/vm.$$.without | head -8
